@@ -14,7 +14,8 @@ from ..core import HOME, REPO
 ID = 'C15'
 LEVEL = 'exploration'
 ASSUMPTIONS = [
-    'inputs use \\n as their only line terminator (no character on which str.splitlines splits) and are valid UTF-8 text',
+    'inputs use \\n as their only line terminator (no carriage return; form feed, NEL, U+2028 and the other characters on which only '
+    'str.splitlines splits are ordinary characters and are part of the alphabet) and are valid UTF-8 text',
     'CLI runs use the repository at VERIF_REPO via PYTHONPATH, with -X dev -W error::ResourceWarning (only that category is an error)',
 ]
 
@@ -35,10 +36,10 @@ def md(source, rname):
 
 def inproc_forms(text, tmpdir):
     """Yields (form name, thunk) for every in-process supply form of ``text``."""
-    yield 'list', lambda: text.splitlines(keepends=True)
-    yield 'list-no-eol', lambda: text.splitlines()
+    yield 'list', lambda: workloads.lines_of(text)
+    yield 'list-no-eol', lambda: workloads.lines_of(text, keepends=False)
     yield 'stringio', lambda: io.StringIO(text)
-    yield 'iter', lambda: iter(text.splitlines(keepends=True))
+    yield 'iter', lambda: iter(workloads.lines_of(text))
 
     def real_file():
         path = os.path.join(tmpdir, 'f.md')
